@@ -25,13 +25,19 @@ PARTS = {"111": [0, 0, 0], "112": [0, 0, 1], "121": [0, 1, 0], "122": [0, 1, 1],
 def results(fname, R, opts, bck, order):
     out = run_functional(fname, R, opts=opts, bck=bck)
     res = [out.detach().reshape(-1)]
+    leaves = [l for l in R.leaves if l.requires_grad]
+    if not leaves or not out.requires_grad:
+        return res + [torch.zeros(1, dtype=out.dtype)] * 2
     if order >= 1:
-        g = torch.autograd.grad(contraction(out), R.leaves, create_graph=(order >= 2), allow_unused=True)
-        res.append(torch.cat([(x if x is not None else torch.zeros_like(l)).detach().reshape(-1) for x, l in zip(g, R.leaves)]))
+        g = torch.autograd.grad(contraction(out), leaves, create_graph=(order >= 2), allow_unused=True)
+        res.append(torch.cat([(x if x is not None else torch.zeros_like(l)).detach().reshape(-1) for x, l in zip(g, leaves)]))
     if order >= 2:
         L2 = sum((gi * torch.cos(torch.arange(gi.numel(), dtype=gi.dtype).reshape(gi.shape))).sum() for gi in g if gi is not None)
-        g2 = torch.autograd.grad(L2, R.leaves, allow_unused=True)
-        res.append(torch.cat([(x if x is not None else torch.zeros_like(l)).detach().reshape(-1) for x, l in zip(g2, R.leaves)]))
+        if isinstance(L2, torch.Tensor) and L2.requires_grad:
+            g2 = torch.autograd.grad(L2, leaves, allow_unused=True)
+        else:
+            g2 = [None] * len(leaves)
+        res.append(torch.cat([(x if x is not None else torch.zeros_like(l)).detach().reshape(-1) for x, l in zip(g2, leaves)]))
     return res
 
 
@@ -73,12 +79,19 @@ def run(ctx):
                 bcks = [None]
                 if fname in ("rootfinder", "equilibrium", "minimize"):
                     bcks = [None, {"method": "bicgstab"}] if (oi == 0 or thorough) else [None]
-                for bck in bcks:
+                patterns = [(True, True)]
+                if oi == 0 and (thorough or fname in ("rootfinder", "solve_ivp", "mcquad", "quad")):
+                    patterns += [(False, True), (True, False)]       # some of the object's tensors do not require grad
+                for bck, rg in [(b_, r_) for b_ in bcks for r_ in patterns]:
+                    if rg != (True, True) and bck is not None:
+                        continue
                     with warnings.catch_warnings():
                         warnings.simplefilter("ignore")
-                        ref = results(fname, Repr("pure", W, c0), opts, bck, 2)
+                        ref = results(fname, Repr("pure", W, c0, requires_grad=rg), opts, bck, 2)
                     for kind in KINDS:
-                        R = Repr(kind, W, c0)
+                        if rg != (True, True) and kind == "nntied":
+                            continue
+                        R = Repr(kind, W, c0, requires_grad=rg)
                         rec = Recorder(R.objects)
                         R.ticker.on_eval = rec.on_eval
                         exc = None
@@ -98,12 +111,12 @@ def run(ctx):
                         else:
                             verd = [[n, close(a, b)] for n, a, b in zip(names, got, ref)]
                         tr = rec.trace(0, {"f": fname, "kind": kind, "opts": {k: (v if isinstance(v, (int, float, str)) else "<callable>") for k, v in opts.items()},
-                                           "bck": bck or {}, "seed": seed, "exc": "%s: %s" % (type(exc).__name__, exc) if exc else ""})
+                                           "bck": bck or {}, "seed": seed, "requires_grad": list(rg), "exc": "%s: %s" % (type(exc).__name__, exc) if exc else ""})
                         tr["ev"][-1]["verdicts"] = verd
                         tid += 1
                         tr["tid"] = tid
                         traces.append(tr)
-                        ctx.case(key=(fname, kind, json.dumps(tr["cfg"]["opts"], sort_keys=True), json.dumps(bck), seed))
+                        ctx.case(key=(fname, kind, json.dumps(tr["cfg"]["opts"], sort_keys=True), json.dumps(bck), seed, rg))
     rej = ctx.validate_traces("Trace_ParamSubst.tla", "Trace_ParamSubst.cfg", traces, shards=16)
     bytid = {t["tid"]: t for t in traces}
     for tid_, matched, total in rej:
@@ -142,8 +155,9 @@ def replay(data):
     c = data["replay"]["cfg"]
     W, c0 = base_tensors(c["seed"])
     opts = {k: v for k, v in c["opts"].items() if v != "<callable>"}
-    ref = results(c["f"], Repr("pure", W, c0), opts, c["bck"] or None, 2)
-    got = results(c["f"], Repr(c["kind"], W, c0), opts, c["bck"] or None, 2)
+    rg = tuple(c.get("requires_grad", [True, True]))
+    ref = results(c["f"], Repr("pure", W, c0, requires_grad=rg), opts, c["bck"] or None, 2)
+    got = results(c["f"], Repr(c["kind"], W, c0, requires_grad=rg), opts, c["bck"] or None, 2)
     for n, a, b in zip(["value", "grad1", "grad2"], got, ref):
         print(n, "max abs diff", float((a - b).abs().max()))
     return 1
